@@ -3,7 +3,8 @@ Model of the native (uncompressed, `DicomValue::Primitive`) arms of
 `PixelDecoder::decode_pixel_data` / `decode_pixel_data_frame` for `FileDicomObject<InMemDicomObject>`
 and of `DecodedPixelData::frame_data` (pixeldata/src/lib.rs), after the repair of defect #12
 (1-bit frames are packed continuously; a frame may start and end inside a byte; all
-`rows*cols*samples_per_pixel` samples of a frame are kept).
+`rows*cols*samples_per_pixel` samples of a frame are kept) and of finding
+`padded-odd-length-whole-len` (bytes beyond the last frame are not returned as samples).
 
 `data` is the stored value of Pixel Data as bytes (`PrimitiveValue::to_bytes`, little endian).
 `none` stands for the `FrameOutOfRange` error.
@@ -41,7 +42,12 @@ def decodeWhole (I : Img) (data : Bytes) : Option Bytes :=
     match getRange data 0 ((I.frameSamples * I.frames + 7) / 8) with
     | some fd => some ((expandBits fd).take (I.frameSamples * I.frames))
     | none => none
-  else some data
+  else
+    -- `data.get(0..size_all).unwrap_or(&data)`: anything beyond the last frame (such as the pad
+    -- byte of an odd-sized value) is left out; a value that is too short is returned as it is
+    match getRange data 0 (I.frameSamples * I.bytesPerSample * I.frames) with
+    | some d => some d
+    | none => some data
 
 /-- `decode_pixel_data_frame(frame)`, `DicomValue::Primitive` arm -/
 def decodeFrame (I : Img) (data : Bytes) (f : Nat) : Option Bytes :=
